@@ -125,185 +125,201 @@ func main() {
 				[]op{{"enc", 0}, {"enc", 1}, {"enc", 2}}, []op{{"enc", 0}, {"enc", 1}, {"dec", 2}}, []op{{"enc", 0}, {"dec", 1}, {"dec", 2}}, []op{{"dec", 0}, {"dec", 1}, {"dec", 2}})
 		}
 
-		for _, kt := range kts {
-			// ciphertexts to decrypt (made outside any scenario, own tape)
-			var files [][]byte
-			base := kt.fresh()
-			for k := range plains {
-				f, err := lab.Encrypt([]age.Recipient{base.rcpt}, plains[k], false, nil)
-				if err != nil {
-					panic(err)
+		// Phases: every key type and thread set is first covered completely at a modest preemption bound; only then the
+		// deep bounds run, so that an internal deadline can only cut the deepest layer.
+		phases := 1
+		if c.Thorough() {
+			phases = 2
+		}
+		for phase := 1; phase <= phases; phase++ {
+			for _, kt := range kts {
+				// ciphertexts to decrypt (made outside any scenario, own tape)
+				var files [][]byte
+				base := kt.fresh()
+				for k := range plains {
+					f, err := lab.Encrypt([]age.Recipient{base.rcpt}, plains[k], false, nil)
+					if err != nil {
+						panic(err)
+					}
+					files = append(files, f)
 				}
-				files = append(files, f)
-			}
-			for _, ts := range threadSets {
-				var names []string
-				for _, o := range ts {
-					names = append(names, fmt.Sprintf("%s%d", o.kind, o.k))
-				}
-				scen := kt.name + ":" + strings.Join(names, "|")
-				bound := c.Pick(1, 3)
-				if kt.name == "x25519" && c.Quick() {
-					bound = 2
-				}
-				if len(ts) == 3 {
-					bound = 2
-				}
-				if kt.rsa {
-					bound = c.Pick(1, 2)
-					if len(ts) == 3 {
+				for _, ts := range threadSets {
+					var names []string
+					for _, o := range ts {
+						names = append(names, fmt.Sprintf("%s%d", o.kind, o.k))
+					}
+					scen := kt.name + ":" + strings.Join(names, "|")
+					bound := 1
+					switch {
+					case c.Quick():
+						if kt.name == "x25519" {
+							bound = 2
+						}
+					case phase == 1 && len(ts) == 2:
+						bound = 2
+					case phase == 1:
 						bound = 1
+						if kt.name == "x25519" {
+							bound = 2
+						}
+					case phase == 2 && len(ts) == 2 && kt.name == "x25519":
+						bound = 3
+					default:
+						continue
 					}
-				}
-				c.Part(scen)
-				c.Bound("threads %v sharing one %s recipient value and one identity value; every schedule with <= %d preemptions at statement granularity of packages age, agessh, armor, internal/{stream,format,bech32}", names, kt.name, bound)
+					if phase == 2 {
+						scen += " (deep)"
+					}
+					c.Part(scen)
+					c.Bound("threads %v sharing one %s recipient value and one identity value; every schedule with <= %d preemptions at statement granularity of packages age, agessh, armor, internal/{stream,format,bech32}", names, kt.name, bound)
 
-				runOps := func(sh shared, ops []op, ch zzsched.Chooser) (results [][]byte, errs []string, pans []interface{}) {
-					results = make([][]byte, len(ops))
-					errs = make([]string, len(ops))
-					var fns []func()
-					for i, o := range ops {
-						i, o := i, o
-						fns = append(fns, func() {
-							if o.kind == "enc" {
-								var buf bytes.Buffer
-								w, err := age.Encrypt(&buf, sh.rcpt)
-								if err != nil {
-									errs[i] = err.Error()
-									return
+					runOps := func(sh shared, ops []op, ch zzsched.Chooser) (results [][]byte, errs []string, pans []interface{}) {
+						results = make([][]byte, len(ops))
+						errs = make([]string, len(ops))
+						var fns []func()
+						for i, o := range ops {
+							i, o := i, o
+							fns = append(fns, func() {
+								if o.kind == "enc" {
+									var buf bytes.Buffer
+									w, err := age.Encrypt(&buf, sh.rcpt)
+									if err != nil {
+										errs[i] = err.Error()
+										return
+									}
+									if _, err := w.Write(plains[o.k]); err != nil {
+										errs[i] = err.Error()
+										return
+									}
+									if err := w.Close(); err != nil {
+										errs[i] = err.Error()
+										return
+									}
+									results[i] = buf.Bytes()
+								} else {
+									r, err := age.Decrypt(bytes.NewReader(files[o.k]), sh.id)
+									if err != nil {
+										errs[i] = err.Error()
+										return
+									}
+									b, err := readAllSmall(r, o.k)
+									if err != nil {
+										errs[i] = err.Error()
+										return
+									}
+									results[i] = b
 								}
-								if _, err := w.Write(plains[o.k]); err != nil {
-									errs[i] = err.Error()
-									return
-								}
-								if err := w.Close(); err != nil {
-									errs[i] = err.Error()
-									return
-								}
-								results[i] = buf.Bytes()
-							} else {
-								r, err := age.Decrypt(bytes.NewReader(files[o.k]), sh.id)
-								if err != nil {
-									errs[i] = err.Error()
-									return
-								}
-								b, err := readAllSmall(r, o.k)
-								if err != nil {
-									errs[i] = err.Error()
-									return
-								}
-								results[i] = b
-							}
-						})
-					}
-					disp.tapes = map[int]*tape.Tape{}
-					pans = zzsched.Run(fns, ch, 200000)
-					return
-				}
-				// solo results: each op alone as thread number i (same tape as in the concurrent run)
-				solo := make([][]byte, len(ts))
-				for i, o := range ts {
-					pad := make([]op, 0, i+1)
-					for j := 0; j < i; j++ {
-						pad = append(pad, op{"noop", 0})
-					}
-					_ = pad
-					sh := kt.fresh()
-					// run as the only active thread but with thread id i: other slots are empty functions
-					ops := make([]op, len(ts))
-					copy(ops, ts)
-					res, errs, pans := runSolo(disp, sh, ts, i, plains, files)
-					if errs != "" || pans != nil {
-						panic(fmt.Sprintf("solo run of %s thread %d failed: %s %v", scen, i, errs, pans))
-					}
-					solo[i] = res
-					if o.kind == "enc" {
-						if r := lab.DecryptBytes(res, false, kt.fresh().id); !r.OK() || !bytes.Equal(r.Plain, plains[o.k]) {
-							panic("solo ciphertext does not decrypt")
+							})
 						}
-					}
-				}
-				sh0 := kt.fresh()
-				h0 := deephash.Of(sh0.rcpt, sh0.id)
-				g0 := deephash.Of(globals()...)
-				sharedWritten := false
-				nexec := 0
-				ex := &explore.Explorer{Bound: bound, NoLabels: true, Stop: c.Expired, Mine: c.Mine, ShardDepth: 2, Primary: c.Shard == 0}
-				if bound < 2 {
-					ex.ShardDepth = 1
-				}
-				ex.Body = func(x *explore.X) {
-					sh := kt.fresh()
-					results, errs, pans := runOps(sh, ts, func(n int, cost int) int { return x.ChooseCost(n, "", cost) })
-					if !x.Owned {
+						disp.tapes = map[int]*tape.Tape{}
+						pans = zzsched.Run(fns, ch, 200000)
 						return
 					}
-					c.Eval(1)
-					id := scen + "/" + compact(x.Choices)
-					det := func() interface{} {
-						var sw []string
-						for i, ch := range x.Choices {
-							if ch != 0 {
-								sw = append(sw, fmt.Sprintf("point %d -> alternative %d (cost %d)", i, ch, x.Costs[i]))
-							}
+					// solo results: each op alone as thread number i (same tape as in the concurrent run)
+					solo := make([][]byte, len(ts))
+					for i, o := range ts {
+						pad := make([]op, 0, i+1)
+						for j := 0; j < i; j++ {
+							pad = append(pad, op{"noop", 0})
 						}
-						return map[string]interface{}{"scenario": scen, "switches": sw, "choice_points": len(x.Choices), "errors": errs}
-					}
-					if zzsched.Overrun {
-						c.Fail("step-budget-exceeded", id, "execution exceeded the step horizon (livelock?)", det())
-						return
-					}
-					for i := range ts {
-						switch {
-						case pans[i] != nil:
-							c.Fail("panic-under-interleaving", id, fmt.Sprintf("thread %d panicked: %v", i, pans[i]), det())
-						case errs[i] != "":
-							c.Fail("operation-fails-under-interleaving/"+kt.name, id, fmt.Sprintf("thread %d (%s) fails only when interleaved: %s", i, names[i], errs[i]), det())
-						case ts[i].kind == "dec" && !bytes.Equal(results[i], solo[i]):
-							c.Fail("result-differs-from-solo/"+kt.name, id, fmt.Sprintf("thread %d (%s) decrypts to different bytes than alone", i, names[i]), det())
-						case ts[i].kind == "enc" && !kt.rsa && !bytes.Equal(results[i], solo[i]):
-							c.Fail("result-differs-from-solo/"+kt.name, id, fmt.Sprintf("thread %d (%s) produces a different file than alone under the same random tape", i, names[i]), det())
-						case ts[i].kind == "enc" && kt.rsa:
-							// (non-RSA files equal the solo file byte for byte, which was decrypted when the solo result was made)
-							// every RSA ciphertext must decrypt with an unshared clone identity
-							res := lab.DecryptBytes(results[i], false, kt.fresh().id)
-							if !res.OK() || !bytes.Equal(res.Plain, plains[ts[i].k]) {
-								c.Fail("ciphertext-corrupted-by-interleaving/"+kt.name, id, fmt.Sprintf("thread %d produced a file that does not decrypt: %v %v", i, res.DecryptErr, res.ReadErr), det())
+						_ = pad
+						sh := kt.fresh()
+						// run as the only active thread but with thread id i: other slots are empty functions
+						ops := make([]op, len(ts))
+						copy(ops, ts)
+						res, errs, pans := runSolo(disp, sh, ts, i, plains, files)
+						if errs != "" || pans != nil {
+							panic(fmt.Sprintf("solo run of %s thread %d failed: %s %v", scen, i, errs, pans))
+						}
+						solo[i] = res
+						if o.kind == "enc" {
+							if r := lab.DecryptBytes(res, false, kt.fresh().id); !r.OK() || !bytes.Equal(r.Plain, plains[o.k]) {
+								panic("solo ciphertext does not decrypt")
 							}
 						}
 					}
-					// after the join, the shared values still work alone
-					res := lab.DecryptBytes(files[0], false, sh.id)
-					if !res.OK() || !bytes.Equal(res.Plain, plains[0]) {
-						c.Fail("shared-value-damaged", id, "after the concurrent run the shared identity no longer decrypts", det())
+					sh0 := kt.fresh()
+					h0 := deephash.Of(sh0.rcpt, sh0.id)
+					g0 := deephash.Of(globals()...)
+					sharedWritten := false
+					nexec := 0
+					ex := &explore.Explorer{Bound: bound, NoLabels: true, Stop: c.Expired, Mine: c.Mine, ShardDepth: 2, Primary: c.Shard == 0}
+					if bound < 2 {
+						ex.ShardDepth = 1
 					}
-					if deephash.Of(sh.rcpt, sh.id) != h0 {
+					ex.Body = func(x *explore.X) {
+						sh := kt.fresh()
+						results, errs, pans := runOps(sh, ts, func(n int, cost int) int { return x.ChooseCost(n, "", cost) })
+						if !x.Owned {
+							return
+						}
+						c.Eval(1)
+						id := scen + "/" + compact(x.Choices)
+						det := func() interface{} {
+							var sw []string
+							for i, ch := range x.Choices {
+								if ch != 0 {
+									sw = append(sw, fmt.Sprintf("point %d -> alternative %d (cost %d)", i, ch, x.Costs[i]))
+								}
+							}
+							return map[string]interface{}{"scenario": scen, "switches": sw, "choice_points": len(x.Choices), "errors": errs}
+						}
+						if zzsched.Overrun {
+							c.Fail("step-budget-exceeded", id, "execution exceeded the step horizon (livelock?)", det())
+							return
+						}
+						for i := range ts {
+							switch {
+							case pans[i] != nil:
+								c.Fail("panic-under-interleaving", id, fmt.Sprintf("thread %d panicked: %v", i, pans[i]), det())
+							case errs[i] != "":
+								c.Fail("operation-fails-under-interleaving/"+kt.name, id, fmt.Sprintf("thread %d (%s) fails only when interleaved: %s", i, names[i], errs[i]), det())
+							case ts[i].kind == "dec" && !bytes.Equal(results[i], solo[i]):
+								c.Fail("result-differs-from-solo/"+kt.name, id, fmt.Sprintf("thread %d (%s) decrypts to different bytes than alone", i, names[i]), det())
+							case ts[i].kind == "enc" && !kt.rsa && !bytes.Equal(results[i], solo[i]):
+								c.Fail("result-differs-from-solo/"+kt.name, id, fmt.Sprintf("thread %d (%s) produces a different file than alone under the same random tape", i, names[i]), det())
+							case ts[i].kind == "enc" && kt.rsa:
+								// (non-RSA files equal the solo file byte for byte, which was decrypted when the solo result was made)
+								// every RSA ciphertext must decrypt with an unshared clone identity
+								res := lab.DecryptBytes(results[i], false, kt.fresh().id)
+								if !res.OK() || !bytes.Equal(res.Plain, plains[ts[i].k]) {
+									c.Fail("ciphertext-corrupted-by-interleaving/"+kt.name, id, fmt.Sprintf("thread %d produced a file that does not decrypt: %v %v", i, res.DecryptErr, res.ReadErr), det())
+								}
+							}
+						}
+						// after the join, the shared values still work alone
+						res := lab.DecryptBytes(files[0], false, sh.id)
+						if !res.OK() || !bytes.Equal(res.Plain, plains[0]) {
+							c.Fail("shared-value-damaged", id, "after the concurrent run the shared identity no longer decrypts", det())
+						}
+						if deephash.Of(sh.rcpt, sh.id) != h0 {
+							sharedWritten = true
+						}
+						nexec++
+						if nexec%64 == 1 && deephash.Of(globals()...) != g0 {
+							sharedWritten = true
+						}
+						if c.WantSample() && x.Deviations() == 2 {
+							c.Sample(det())
+						}
+					}
+					ex.Run()
+					if deephash.Of(globals()...) != g0 {
 						sharedWritten = true
 					}
-					nexec++
-					if nexec%64 == 1 && deephash.Of(globals()...) != g0 {
-						sharedWritten = true
+					c.Trans(ex.Stats.ChoicePoints)
+					c.Distinct(ex.Stats.Executions)
+					c.Trace(ex.Stats.Executions)
+					c.Depth(ex.Stats.MaxDepth)
+					c.State(fmt.Sprintf("%s shared-state-written=%v", scen, sharedWritten))
+					if sharedWritten {
+						c.PartNote("shared values or package-level variables changed during some execution: the threads are not independent, the verdict rests on the bounded exploration alone")
+					} else {
+						c.PartNote("independence: the deep hash of the shared values was unchanged after every explored execution, that of all package-level variables of the instrumented packages after every 64th and after the last")
 					}
-					if c.WantSample() && x.Deviations() == 2 {
-						c.Sample(det())
+					if ex.Stats.Capped {
+						c.NotExhaustive("deadline")
 					}
-				}
-				ex.Run()
-				if deephash.Of(globals()...) != g0 {
-					sharedWritten = true
-				}
-				c.Trans(ex.Stats.ChoicePoints)
-				c.Distinct(ex.Stats.Executions)
-				c.Trace(ex.Stats.Executions)
-				c.Depth(ex.Stats.MaxDepth)
-				c.State(fmt.Sprintf("%s shared-state-written=%v", scen, sharedWritten))
-				if sharedWritten {
-					c.PartNote("shared values or package-level variables changed during some execution: the threads are not independent, the verdict rests on the bounded exploration alone")
-				} else {
-					c.PartNote("independence: the deep hash of the shared values was unchanged after every explored execution, that of all package-level variables of the instrumented packages after every 64th and after the last")
-				}
-				if ex.Stats.Capped {
-					c.NotExhaustive("deadline")
 				}
 			}
 		}
